@@ -90,7 +90,9 @@ mod proofs {
         let st: Option<u64> = if kani::any() { Some(kani::any()) } else { None };
         let echo: u64 = kani::any();
         c.set_keep_alive_id_for_verif(st);
+        let delays = tokio::time::interval_delays();
         c.handle_keep_alive_for_verif(echo);
+        assert!(tokio::time::interval_delays() == delays, "an echo never pushes the next Keep Alive back: it stays due one period after the previous one");
         let after = c.keep_alive_id_for_verif();
         match st {
             Some(x) if x == echo => assert!(after.is_none(), "the matching echo clears the outstanding keep-alive"),
@@ -115,7 +117,9 @@ mod proofs {
         let (mut c, m) = conn_with(s);
         c.set_keep_alive_id_for_verif(Some(old));
         unsafe { CANCEL_AT = [end, usize::MAX, usize::MAX]; CANCEL_USED = [false; 3]; TICKS_LEFT = 0; }
+        let delays = tokio::time::interval_delays();
         let r = c.keep_alive_loop_for_verif();
+        assert!(tokio::time::interval_delays() == delays, "frames arriving between two ticks never push the next Keep Alive back");
         let cancelled = tokio::__take_cancelled();
         match r { Ok(()) => assert!(false, "the waiting loop never completes by itself"), Err(e) => std::mem::forget(e) }
         assert!(cancelled, "it runs until the backend call completes");
